@@ -1115,7 +1115,7 @@ impl Serialize for NonNegativeIntegerOrFloat {
     where
         S: Serializer,
     {
-        if self.is_integer() {
+        if self.is_integer() && (i32::MIN as f64..=i32::MAX as f64).contains(&self.0) {
             serializer.serialize_i32(self.0 as i32)
         } else {
             serializer.serialize_f64(self.0)
@@ -1143,7 +1143,9 @@ mod serde_impls {
         where
             S: Serializer,
         {
-            if self.0.fract().abs() <= f64::EPSILON {
+            if self.0.fract().abs() <= f64::EPSILON
+                && (i32::MIN as f64..=i32::MAX as f64).contains(&self.0)
+            {
                 serializer.serialize_i32(self.0 as i32)
             } else {
                 serializer.serialize_f64(self.0)
